@@ -79,11 +79,11 @@ def build_world(g, tag, allow):
 
 
 def big_file_world(g):
-    """one snapshot file of more than 128 KiB holding 150 entries of mixed kinds, recorded and replayed:
+    """one snapshot file of more than 256 KiB holding 320 entries of mixed kinds, recorded and replayed:
     every buffer window of the scanner (4 KiB, 64 KiB) is crossed by some entry"""
     from gen import Call
     calls = []
-    for k in range(150):
+    for k in range(320):
         body = b'\n'.join(b'entry %03d line %03d %s' % (k, j, b'x' * ((k * 7 + j) % 40)) for j in range(12 + k % 17))
         if k % 3 == 0:
             calls.append((1, Call('snap', body)))
